@@ -8,6 +8,7 @@ import (
 	"strconv"
 
 	"verifharness/drv/c19"
+	"verifharness/drv/c20"
 )
 
 func atoi(s string) int {
@@ -27,6 +28,8 @@ func main() {
 	switch os.Args[1] {
 	case "c19":
 		c19.Run(os.Args[2])
+	case "c20":
+		c20.Run(os.Args[2])
 	case "c19x":
 		a := os.Args
 		c19.Explicit(a[2], a[3], atoi(a[4]), atoi(a[5]), atoi(a[6]), a[7] == "1")
